@@ -22,39 +22,39 @@ import (
 )
 
 type Replay struct {
-	Property  string   `json:"property"`
-	Scenario  string   `json:"scenario"`
-	Variant   int      `json:"variant"`
-	Seed      uint64   `json:"seed"`
-	Thorough  bool     `json:"thorough"`
-	Signature string   `json:"signature"`
-	Message   string   `json:"message"`
-	TraceHash uint64   `json:"trace_hash"`
-	Tape      []uint32 `json:"tape"`
-	TapeLenBeforeMinimisation int `json:"tape_len_before_minimisation"`
-	Notes     []string `json:"notes,omitempty"`
-	Trace     []string `json:"trace,omitempty"`
-	Race      bool     `json:"race,omitempty"` // needs the race-detector build to reproduce
-	Hang      bool     `json:"hang,omitempty"` // the violation is that the run never finishes
-	Crash     bool     `json:"crash,omitempty"` // the violation is that the process dies (fatal signal) inside sonic
+	Property                  string   `json:"property"`
+	Scenario                  string   `json:"scenario"`
+	Variant                   int      `json:"variant"`
+	Seed                      uint64   `json:"seed"`
+	Thorough                  bool     `json:"thorough"`
+	Signature                 string   `json:"signature"`
+	Message                   string   `json:"message"`
+	TraceHash                 uint64   `json:"trace_hash"`
+	Tape                      []uint32 `json:"tape"`
+	TapeLenBeforeMinimisation int      `json:"tape_len_before_minimisation"`
+	Notes                     []string `json:"notes,omitempty"`
+	Trace                     []string `json:"trace,omitempty"`
+	Race                      bool     `json:"race,omitempty"`  // needs the race-detector build to reproduce
+	Hang                      bool     `json:"hang,omitempty"`  // the violation is that the run never finishes
+	Crash                     bool     `json:"crash,omitempty"` // the violation is that the process dies (fatal signal) inside sonic
 }
 
 type WorkerResult struct {
-	Worker      int            `json:"worker"`
-	Runs        int            `json:"runs"`
-	Directed    int            `json:"directed_runs"`
-	NonTrivial  int            `json:"nontrivial_runs"`
-	Steps       int64          `json:"steps"`
-	SimNs       int64          `json:"sim_ns"`
-	Stats       map[string]int `json:"stats"`
-	ByScenario  map[string]int `json:"by_scenario"`
-	KnownHits   map[string]int `json:"known_hits"`
-	Violations  []string       `json:"violation_replays"`
-	Harness     []string       `json:"harness_errors"`
-	Samples     []Replay       `json:"samples"`
-	WallS       float64        `json:"wall_s"`
-	FirstSeed   uint64         `json:"first_seed"`
-	LastSeed    uint64         `json:"last_seed"`
+	Worker     int            `json:"worker"`
+	Runs       int            `json:"runs"`
+	Directed   int            `json:"directed_runs"`
+	NonTrivial int            `json:"nontrivial_runs"`
+	Steps      int64          `json:"steps"`
+	SimNs      int64          `json:"sim_ns"`
+	Stats      map[string]int `json:"stats"`
+	ByScenario map[string]int `json:"by_scenario"`
+	KnownHits  map[string]int `json:"known_hits"`
+	Violations []string       `json:"violation_replays"`
+	Harness    []string       `json:"harness_errors"`
+	Samples    []Replay       `json:"samples"`
+	WallS      float64        `json:"wall_s"`
+	FirstSeed  uint64         `json:"first_seed"`
+	LastSeed   uint64         `json:"last_seed"`
 }
 
 // ---- watchdog: a run that spins without ever finishing (a tight loop inside
@@ -71,9 +71,11 @@ type runInfo struct {
 }
 
 var (
-	curRunMu sync.Mutex
-	curRun   runInfo
-	onHang   func(info runInfo, origin, site, stack string)
+	lastRunWall time.Duration // wall-clock time of the most recent run
+	slowFailure bool          // a slow failing run was reported: this worker stops exploring
+	curRunMu    sync.Mutex
+	curRun      runInfo
+	onHang      func(info runInfo, origin, site, stack string)
 )
 
 func startWatchdog(limit time.Duration) {
@@ -178,7 +180,9 @@ func run(prop string, sc *scen.Scenario, variant int, seed uint64, replay []uint
 	curRunMu.Lock()
 	curRun = runInfo{prop: prop, scenario: sc.Name, variant: variant, seed: seed, thorough: thorough, tape: replay, started: time.Now(), active: true}
 	curRunMu.Unlock()
+	t0 := time.Now()
 	o := scen.RunOne(prop, sc, variant, seed, replay, trace, thorough, known, avoid)
+	lastRunWall = time.Since(t0)
 	curRunMu.Lock()
 	curRun.active = false
 	curRunMu.Unlock()
@@ -212,7 +216,7 @@ func run(prop string, sc *scen.Scenario, variant int, seed uint64, replay []uint
 }
 
 func mix(a, b uint64) uint64 {
-	z := a*0x9e3779b97f4a7c15 ^ (b + 0x7f4a7c15) * 0xbf58476d1ce4e5b9
+	z := a*0x9e3779b97f4a7c15 ^ (b+0x7f4a7c15)*0xbf58476d1ce4e5b9
 	z ^= z >> 29
 	z *= 0x94d049bb133111eb
 	z ^= z >> 32
@@ -318,6 +322,11 @@ func main() {
 		}
 		os.Exit(2)
 	}
+	scen.WaitHook = func() {
+		curRunMu.Lock()
+		curRun.started = time.Now()
+		curRunMu.Unlock()
+	}
 	startWatchdog(time.Duration(*hangS * float64(time.Second)))
 	names := sim.StatNames()
 	hashes := make([]uint64, 0, 1<<16)
@@ -376,6 +385,12 @@ func main() {
 			// the detector reports each pair of stacks once per process: no in-process minimisation
 			rp = Replay{Property: o.Prop, Scenario: o.Scenario, Variant: o.Variant, Seed: o.Seed, Thorough: thorough, Signature: o.Fail.Sig, Message: o.Fail.Msg,
 				TraceHash: o.TraceHash, Tape: o.Tape, TapeLenBeforeMinimisation: len(o.Tape), Notes: o.Notes, Race: true}
+		} else if lastRunWall > 3*time.Second {
+			// a run that is this slow (a defect that makes sonic allocate gigabytes, say) is reported as found:
+			// delta debugging would repeat it dozens of times
+			rp = Replay{Property: o.Prop, Scenario: o.Scenario, Variant: o.Variant, Seed: o.Seed, Thorough: thorough, Signature: o.Fail.Sig, Message: o.Fail.Msg,
+				TraceHash: o.TraceHash, Tape: o.Tape, TapeLenBeforeMinimisation: len(o.Tape), Notes: append(o.Notes, "not minimised: the failing run took "+lastRunWall.Round(time.Millisecond).String())}
+			slowFailure = true
 		} else {
 			rp = minimise(sc, o, thorough, known, avoid, *minBudget)
 		}
@@ -384,7 +399,7 @@ func main() {
 		js, _ := json.MarshalIndent(rp, "", " ")
 		os.WriteFile(path, js, 0o644)
 		res.Violations = append(res.Violations, path)
-		return len(res.Violations) >= 3
+		return len(res.Violations) >= 3 || slowFailure
 	}
 
 	// directed variants first, split over the workers
